@@ -122,24 +122,24 @@ func c08RefsBV() []c08Ref {
 		{op: POP, name: "pop", pops: 1, f: func(c *c08Ctx) c08X { return c08X{gas: c08Gbase} }},
 		{op: JUMPDEST, name: "jumpdest", pops: 0, f: func(c *c08Ctx) c08X { return c08X{gas: 1} }},
 		// memory
-		{op: MLOAD, name: "mload", pops: 1, f: func(c *c08Ctx) c08X {
+		{op: MLOAD, name: "mload", pops: 1, pre: func(a []*big.Int) { c08OffsetOnly(a, 0) }, f: func(c *c08Ctx) c08X {
 			x := c08X{gas: c08Gverylow, memOff: c.args[0], memLen: 32}
 			return x
 		}},
-		{op: MSTORE, name: "mstore", pops: 2, f: func(c *c08Ctx) c08X {
+		{op: MSTORE, name: "mstore", pops: 2, pre: func(a []*big.Int) { c08OffsetOnly(a, 0) }, f: func(c *c08Ctx) c08X {
 			v := c.args[1]
 			return c08X{gas: c08Gverylow, memOff: c.args[0], memLen: 32, write: func(m []byte) {
 				off := c.args[0].Uint64()
 				copy(m[off:off+32], c08Pad32Left(v))
 			}}
 		}},
-		{op: MSTORE8, name: "mstore8", pops: 2, f: func(c *c08Ctx) c08X {
+		{op: MSTORE8, name: "mstore8", pops: 2, pre: func(a []*big.Int) { c08OffsetOnly(a, 0) }, f: func(c *c08Ctx) c08X {
 			v := c.args[1]
 			return c08X{gas: c08Gverylow, memOff: c.args[0], memLen: 1, write: func(m []byte) {
 				m[c.args[0].Uint64()] = byte(new(big.Int).And(v, big.NewInt(0xff)).Uint64())
 			}}
 		}},
-		{op: CALLDATALOAD, name: "calldataload", pops: 1, f: func(c *c08Ctx) c08X {
+		{op: CALLDATALOAD, name: "calldataload", pops: 1, pre: func(a []*big.Int) { c08OffsetOnly(a, 0) }, f: func(c *c08Ctx) c08X {
 			// 32 bytes of call data from the offset, zero padded on the right
 			buf := make([]byte, 32)
 			off := c.args[0]
@@ -251,6 +251,11 @@ func c08Step(refs []c08Ref) {
 	set := sets[vs.Choice("set", vs.Param("sets"))]
 	ref := refs[vs.Choice("ref", len(refs))]
 	opc := ref.op
+	// the 17 bit-vector word operations are decided functionally by VerifC08_WordOpsBV; their
+	// (expensive) step instance runs in the thorough tier only
+	if vs.Param("wordops") == 0 && c08IsWordOp(ref.op) {
+		return
+	}
 	// SHL needs a 512-bit intermediate: it runs in the "wide" instance (big width 520) only
 	if (opc == SHL) != (vs.Param("wide") != 0) {
 		return
@@ -437,6 +442,26 @@ func c08Step(refs []c08Ref) {
 }
 
 func VerifC08_StepMem() { c08Step(c08RefsMem()) }
+
+func c08IsWordOp(op OpCode) bool {
+	switch op {
+	case ADD, SUB, NOT, LT, GT, SLT, SGT, EQ, ISZERO, AND, OR, XOR, BYTE, SIGNEXTEND, SHL, SHR, SAR:
+		return true
+	}
+	return false
+}
+
+// offset operand: small (<= 3, or 31..33 to cross a word boundary) or enormous (refused)
+func c08OffsetOnly(args []*big.Int, idx int) {
+	switch vs.Choice("offwin", 3) {
+	case 0:
+		vs.Assume(args[idx].Cmp(big.NewInt(3)) <= 0)
+	case 1:
+		args[idx] = big.NewInt(31 + int64(vs.Choice("offhi", 3)))
+	default:
+		vs.Assume(args[idx].Cmp(big.NewInt(1<<32)) >= 0)
+	}
+}
 
 func VerifC08_StepBV()  { c08Step(c08RefsBV()) }
 func VerifC08_StepInt() { c08Step(c08RefsInt()) }
